@@ -3,29 +3,80 @@
    strict self-consistency check). *)
 From Coq Require Import NArith ZArith List Bool.
 From CA Require Import Model.Lexer Model.Parser Model.BigIntOps Model.Matcher Model.Evaluator Model.Resolver Spec.Denote
-  Proofs.ResolverFixP Proofs.ResolverTopP Proofs.DenoteP.
+  Proofs.ResolverFixP Proofs.ResolverTopP Proofs.CertifiedP Proofs.DenoteP
+  Proofs.StaticSizeP Proofs.CertUniqueP Proofs.DenoteCompleteP Proofs.C01Sound.
 Import ListNotations.
+Open Scope Z_scope.
 
-(* the full statement: for a program inside the size-static fragment, the assembler's answer IS the definition's answer *)
-Definition C01_sound_statement : Prop := forall indexed defs names ns budget out syms n,
-  syms_distinct ns ->
+(* for a program inside the size-static fragment, over a rule set that comes from text, the assembler's answer IS
+   the definition's answer (bits and symbol values).  Conditions:
+   - no_param_assign: no production assigns to one of its own parameters (NOT guaranteed by customasm; without it
+     the statement is false, see C01_sound_unrestricted_refuted);
+   - consts_acyclic: the constants can be ranked so that each reads only constants of lower rank;
+   - syms_distinct / data_canonical: the node list is numbered the way the front end numbers it. *)
+Theorem C01_sound : forall t indexed defs names ns budget out syms n,
+  parse_defs t = Some defs -> no_param_assign defs = true ->
+  syms_distinct ns -> consts_acyclic names ns -> data_canonical ns ->
   assemble indexed defs names ns budget = Some (out, syms, n) ->
   denote indexed defs names ns <> DUnsupported ->
   denote indexed defs names ns = DOk out syms.
+Proof. exact C01_sound_parsed. Qed.
 
-(* proved part: the definition's answer is a certified state of the program, and so is the assembler's answer
-   (same self-consistency predicate, same output function).  Missing for the full statement: uniqueness of the
-   certified state of a size-static program (static sizes fix the layout, acyclic constants fix the valuation);
-   that equality is decided on every run by the correspondence stream impl = model = denote. *)
-Theorem C01_sound_partial : forall indexed defs names ns budget out syms n out' syms',
-  syms_distinct ns ->
+(* the same for arbitrary rule sets with the rule conditions stated explicitly *)
+Theorem C01_sound_rules : forall indexed defs names ns budget out syms n,
+  syms_distinct ns -> consts_acyclic names ns ->
+  defs_ok defs = true -> pats_ok defs = true -> data_canonical ns ->
   assemble indexed defs names ns budget = Some (out, syms, n) ->
-  denote indexed defs names ns = DOk out' syms' ->
-  (exists st, Certified names defs ns st /\ out = build_output ns st /\ syms = s_sym st) /\
-  (exists st', Certified names defs ns st' /\ out' = build_output ns st' /\ syms' = s_sym st').
-Proof. exact sound_partial. Qed.
+  denote indexed defs names ns <> DUnsupported ->
+  denote indexed defs names ns = DOk out syms.
+Proof. exact C01_sound'. Qed.
+
+Theorem C01_rejects : forall t indexed defs names ns budget,
+  parse_defs t = Some defs -> no_param_assign defs = true ->
+  syms_distinct ns -> consts_acyclic names ns -> data_canonical ns ->
+  denote indexed defs names ns = DReject ->
+  assemble indexed defs names ns budget = None.
+Proof. exact C01_rejects_parsed. Qed.
+
+(* the former unrestricted statement is false: a production assigning to its typed parameter *)
+Theorem C01_sound_unrestricted_refuted :
+  exists indexed defs names ns budget out syms n,
+    syms_distinct ns /\ consts_acyclic names ns /\
+    assemble indexed defs names ns budget = Some (out, syms, n) /\
+    denote indexed defs names ns <> DUnsupported /\
+    denote indexed defs names ns <> DOk out syms.
+Proof. exact C01Sound.C01_sound_unrestricted_refuted. Qed.
+
+(* the static size guess is the size (or the value is unsized) *)
+Theorem C01_static_size_sound : forall sizes e s pv ctx b ctx',
+  no_assign (map fst sizes) e = true ->
+  (forall n z, slk sizes n = Some z -> exists v, lookup ctx n = Some v /\ sized_as z v) ->
+  static_size sizes e = Some s ->
+  eval code_ops pv e ctx = EOk (VInt b, ctx') ->
+  bsz b = None \/ bsz b = Some (Z.to_N s).
+Proof. exact static_size_sound. Qed.
+
+(* a size-static program with acyclic constants has at most one certified state per initial state *)
+Theorem C01_certified_unique : forall names defs ns st0 st st',
+  cert_ctx names defs ns st0 st -> cert_ctx names defs ns st0 st' ->
+  (forall i v, nth_error (s_sym st0) i = Some v -> v = VUnknown) ->
+  consts_acyclic names ns -> st = st'.
+Proof. exact certified_unique. Qed.
+
+(* and the definition computes it *)
+Theorem C01_denote_complete : forall indexed defs names ns st0 st,
+  init_state indexed defs (length names) ns = Some st0 ->
+  cert_ctx names defs ns st0 st -> consts_acyclic names ns ->
+  denote indexed defs names ns = DOk (build_output ns st) (s_sym st).
+Proof. exact denote_complete. Qed.
 
 Theorem C01_denote_certified : forall indexed defs names ns out syms,
   syms_distinct ns -> denote indexed defs names ns = DOk out syms ->
   exists st, Certified names defs ns st /\ out = build_output ns st /\ syms = s_sym st.
 Proof. exact denote_certified. Qed.
+
+(* non-vacuity: a program with a forward reference and an address-dependent constant *)
+Example C01_nonvacuous :
+  no_param_assign ex_defs = true /\ data_canonical ex_ns /\
+  denote true ex_defs ex_names ex_ns = DOk (17614197753865, 48) [VInt (un 0); VInt (un 8); VInt (un 9)].
+Proof. exact C01_sound_parsed_nonvacuous. Qed.
